@@ -6,10 +6,11 @@ IMPL_MODULE = "spec_impl"
 RULE = ("bounded-exhaustive strings over class-representative alphabets (one representative per character class the patterns distinguish, incl. the four "
         "IGNORECASE confusables, a non-ASCII letter and digit, U+00A0, newline, '_', upper case); word stems continued by every 2-letter tail over the "
         "letters of the pre/post/dev words; all 29 whitespace code points and their neighbours in 10 positions; a code-point sweep (quick: U+0000-30FF, "
-        "thorough: every non-surrogate code point) through templates + generated/mutated specifiers and versions; acceptance and stored "
+        "thorough: every non-surrogate code point in two of them) through 4-6 templates + generated/mutated specifiers and versions; acceptance and stored "
         "operator/text compared with the scanner model; clause-inside-requirement law on the implementation; non-trivial = accepted; the exhaustive "
         "sub-streams enumerate their finite space completely")
 ALPHA_V = ["1", "0", ".", "a", "r", "c", "-", "+", "!", "v", " ", "p", "ſ", "é", "١", " ", "\n", "*"]
+ALPHA_V0 = list(ALPHA_V)
 ALPHA_V = ALPHA_V + ["_", "A", "e", "\u0131", "\u0130", "\u212a"]      # + separator '_', an upper-case letter, 'e', and the other three IGNORECASE confusables
 # letters of every pre/post/dev word + a digit and two separators: tails of word stems are enumerated over this alphabet
 ALPHA_W = list("alphbetrviwcosd") + ["1", ".", "-"]
@@ -21,8 +22,11 @@ ALPHA_S = ["=", "~", "<", "!", "1", ".", "*", "a", "+", " ", "x", ";", "ſ", " 
 def streams(rng, tier):
     q = tier == "quick"
     out = []
-    for s in gen.exhaustive(ALPHA_V, 4 if q else 5):
+    for s in gen.exhaustive(ALPHA_V, 4):
         out.append(Case("exh-version", "v.parse", [s]))
+    if not q:
+        for s in gen.exhaustive(ALPHA_V0, 5):       # length 5 over the 18 original class representatives (as before the alphabet was extended)
+            out.append(Case("exh-version", "v.parse", [s]))
     for s in gen.exhaustive(ALPHA_S, 4 if q else 6):
         out.append(Case("exh-specifier", "sp.parse", [s]))
     heads = ["1.0", "1!2", "1.0a", "1.0.post", "1.0-", "1.0.dev", "1.0+a", "v1"]
@@ -39,8 +43,9 @@ def streams(rng, tier):
         for tpl in ["%s1.0", "1.0%s", "%sv1.0rc1%s", "1%s0", "1.0%sa1", "1.0+a%s", "1.0+%sa", "%s", "1.0 %s", "%s 1.0"]:
             out.append(Case("ws-all", "v.parse", [tpl.replace("%s", chr(c))]))
     cps = list(range(0, 0x3100)) if q else [c for c in range(0x110000) if not 0xD800 <= c <= 0xDFFF]
-    for tpl in (["1.0%s", "%s1", "1.0+%s", "1.0.p%sst"] if q else ["1.0%s", "%s1", "1.0+%s", "1.0.p%sst", "1%s0", "1.0a%s"]):
-        for c in cps:
+    for k, tpl in enumerate(["1.0%s", "1.0+%s", "%s1", "1.0.p%sst", "1%s0", "1.0a%s"]):
+        if q and k >= 4: break
+        for c in (cps if k < 2 else range(0, 0x3100)):      # thorough: the first two templates over every code point
             out.append(Case("sweep-codepoint", "v.parse", [tpl.replace("%s", chr(c))]))
     for _ in range(600 if q else 12000):
         v = gen.rand_v_wide(rng); sv = gen.spell_wide(rng, v)
